@@ -737,7 +737,9 @@ func parseNft(line string, ver int, sets map[string]int, in *interner) (string, 
 }
 
 // chains Felix owns are all named cali-...; anything else after --jump is an unknown built-in target
-func isChainName(s string) bool { return strings.HasPrefix(s, "cali-") && !strings.ContainsAny(s, " \"") }
+func isChainName(s string) bool {
+	return strings.HasPrefix(s, "cali-") && !strings.ContainsAny(s, " \"")
+}
 
 var ctStateNames = map[string]string{"NEW": "CtNew", "ESTABLISHED": "CtEstablished", "RELATED": "CtRelated", "INVALID": "CtInvalid", "UNTRACKED": "CtUntracked"}
 
